@@ -229,7 +229,8 @@ ATNAMES = ["foo", "-x-bar", "supports", "font-face", "page", "keyframes"]
 ATARGS = [None, A("bar"), A('"x y" (a: b) z'), A("(a: b)"), A("é"), A("k"), A("a\n  b"), A("a  b (c\n d)")]
 IMPORTS = [A('"x.css"'), A("url(x.css)"), A('"é.css"')]
 COMMENT_WORDS = ["x", " c ", " multi\n line ", " a\n   b ", "*\n * doc\n ", " é ", "! loud ", "", "**", "# map ",
-                 " x\n      deep\n      er ", " {", " } ", " \" ", " a\n\n b ", "\n", " t\n", " a\n* b\n*", "/", " url( "]
+                 " x\n      deep\n      er ", " {", " } ", " \" ", " a\n\n b ", "\n", " t\n", " a\n* b\n*", "/", " url( ",
+                 "# sourceMappingURL=x.map ", "# sourceURL=y", "#", "# sourceMappingURL", "#x\n   y"]
 CUSTOM = [(" 1 2", False), ("a", False), (" {a b}", False), ('"q"', True), ('"é"', True), (" {a\n b}", False),
           ("[x](y)", False), (" é", False)]
 WS = ["", "", " ", "\n", "\n  ", "  ", "\t"]
@@ -359,7 +360,14 @@ class Dest:
                 self.parent.push_item(it)
         else:
             if it[0] != "S":
+                self.commit_inner()      # 242f60b: what is collected for the enclosing rule goes first
                 self.body.append(it)
+
+    def commit_inner(self):
+        """cssdest.rs `commit_rule(&mut self.rule, &mut self.body)` of AtRuleDest / AtMediaDest"""
+        if self.rule:
+            self.body.append(("R", self.rsel, self.rule))
+            self.rule = []
 
     def push_leaf(self, it):     # push_property / push_custom_property / push_comment
         if self.kind == "data":
@@ -401,15 +409,11 @@ class Dest:
         if self.kind == "rule":
             self.commit_rule()
         elif self.kind == "at":
-            body = self.body
-            if self.rule is not None:
-                body = [("R", self.rsel, self.rule)] + body
-            self.parent.push_item(("B", self.name, self.args, body))
+            self.commit_inner()
+            self.parent.push_item(("B", self.name, self.args, self.body))
         elif self.kind == "media":
-            body = self.body
-            if self.rule:
-                body = [("R", self.rsel, self.rule)] + body
-            self.parent.push_item(("M", self.args, body))
+            self.commit_inner()
+            self.parent.push_item(("M", self.args, self.body))
         self.parent.separate()
 
 
@@ -498,6 +502,9 @@ def gen(tier, rng, boost=1):
         ('a{b:"é"}', [("R", A("a"), [("P", b"b", A('"é"'))])]),
         ("/*# m */a{b:c}", [("C", b"# m "), ("R", A("a"), [("P", b"b", A("c"))])]),
         ("a{/*# m */}", [("R", A("a"), [("C", b"# m ")])]),
+        ("/*# sourceMappingURL=m */a{b:c}", [("C", b"# sourceMappingURL=m "), ("R", A("a"), [("P", b"b", A("c"))])]),
+        ("a{/*# sourceURL=m */}", [("R", A("a"), [("C", b"# sourceURL=m ")])]),
+        ("@foo{/*# sourceURL=m */}", [("B", b"foo", None, [("C", b"# sourceURL=m ")])]),
         ("@foo{/* only */}", [("B", b"foo", None, [("C", b" only ")])]),
         ("@foo{}", [("B", b"foo", None, [])]),
         ("@media screen{a{}}", [("M", A("screen"), [("R", A("a"), [])])]),
